@@ -269,9 +269,9 @@ Argument:
                                         cli_reporter, exp_name, args.data_file,
                                         args.build_log, exp_filter, args.machine)
         except ConfigurationError as exc:
-            raise UIError(exc.message + "\n", exc)
+            raise UIError(escape_braces(exc.message) + "\n", exc)
         except ValueError as exc:
-            raise UIError(exc.args[0] + "\n", exc)
+            raise UIError(escape_braces(exc.args[0]) + "\n", exc)
         except (TypeError, KeyError, IndexError, AttributeError,
                 AssertionError, NotImplementedError) as exc:
             # the schema cannot express everything the compilation of the
